@@ -332,7 +332,7 @@ func mainPipelineJobs(c *Ctx) []Job {
 				InitPkgs: func(p string) bool {
 					return p == "sort" || p == "unicode" || p == "unicode/utf8" || p == "strconv" || (strings.HasPrefix(p, RepoMod) && !strings.Contains(p, "/gen"))
 				}},
-			AllowPanic:          []string{"panic @"},
+			AllowPanic:          []string{"panic @", "panic: "},
 			TimeoutS:            600,
 			ConfirmOnlyFailures: true,
 			PanicIsCover:        true,
